@@ -1469,6 +1469,13 @@ void SPxMainSM<R>::AggregationPS::execute(VectorBase<R>& x, VectorBase<R>& y, Ve
    x[m_j] = z * scale / aij;
    s[m_i] = m_rhs;
 
+   // the sides of the other rows containing x_j were shifted by the aggregation constant times their coefficient
+   for(int k = 0; k < m_col.size(); ++k)
+   {
+      if(m_col.index(k) != m_i)
+         s[m_col.index(k)] += m_col.value(k) * (m_rhs / aij);
+   }
+
    if(isOptimal && (LT(x[m_j], m_lower, this->feastol()) || GT(x[m_j], m_upper, this->feastol())))
    {
       SPX_MSG_ERROR(std::cerr << "EMAISM: numerical violation after disaggregating variable" << std::endl;
